@@ -150,6 +150,20 @@ class Schema(object):
                     self.instances[key] = [inst]
                     inst_cands.append(('obj:' + key, inst))
                     inst_cands.append(('list_obj:' + key, [inst]))
+            # the older payloads insist on the template-attribute subclasses (isinstance), the newer ones take a tagged
+            # TemplateAttribute: offer both forms under the same kind (the first one a field accepts is kept)
+            from kmip.core import objects as cobjects_
+            for sub in ('CommonTemplateAttribute', 'PrivateKeyTemplateAttribute', 'PublicKeyTemplateAttribute'):
+                if 'objects.' + sub in hand:
+                    inst_cands.append(('obj:objects.' + sub, getattr(cobjects_, sub)(
+                        attributes=list(hand['objects.' + sub].attributes))))
+            # fields that take a structure or primitive under one particular tag
+            from kmip.core import primitives as primitives_
+            for tname in ('COMMON_PROTECTION_STORAGE_MASKS', 'PRIVATE_PROTECTION_STORAGE_MASKS', 'PUBLIC_PROTECTION_STORAGE_MASKS'):
+                inst_cands.append(('obj:tagged.' + tname, cobjects_.ProtectionStorageMasks(
+                    protection_storage_masks=[3, 768], tag=enums.Tags[tname])))
+            inst_cands.append(('obj:tagged.CompromiseOccurrenceDate', primitives_.DateTime(
+                1600000000, tag=enums.Tags.COMPROMISE_OCCURRENCE_DATE)))
         self.prune()
         return self
 
@@ -202,7 +216,7 @@ class Schema(object):
                                 continue
                             # a field named like a class takes that class
                         keep.append((k, v))
-                    want = p.replace('_', '').lower()
+                    want = p.replace('_', '').lower().replace('uuid', 'uniqueidentifier')
                     # an object derived from a primitive has a fixed tag: it is only the right
                     # candidate for a field named like its class
                     keep = [(k, v) for k, v in keep if not (
